@@ -118,9 +118,24 @@ def chain_case(kinds, has_else, shape=0, form='if'):
             **{'else': [T('ELSE[')] + earlier_refs(kinds, n) +
                [V('belse'), T(']')] if has_else
                else None}), T('>')]
-    elif form == 'unless':
+    elif form in ('unless', 'unless-else'):
+        body = [T('U['), V('b0')]
+        if kinds[0] in ('F', 'RF'):
+            # the body re-references the (false) condition name, at several
+            # depths: the value is reused, not recomputed
+            body += [V('c0'), dict(k='if', conds=[dict(r='name', n='c0')],
+                                   bodies=[[T('never')]],
+                                   **{'else': [T('!'), V('c0')]}),
+                     dict(k='let', binds=[['la', dict(r='name', n='c0')]],
+                          body=[V('la'), dict(k='unless', ref=dict(
+                              r='name', n='c0'), body=[T('u2'), V('c0')])]),
+                     dict(k='with', ref=dict(r='name', n='oa'),
+                          mapping=False, only=False, body=[V('c0'), dict(
+                              k='in', ref=dict(r='name', n='ss'), opts=[],
+                              body=[V('c0')], **{'else': None})])]
         ast = [T('<'), dict(k='unless', ref=cond_ref(0, kinds[0]),
-                            body=[T('U['), V('b0'), T(']')]), T('>')]
+                            as_else=form == 'unless-else',
+                            body=body + [T(']')]), T('>')]
     else:
         ast = [T('<'), dict(k='call', ref=cond_ref(0, kinds[0])), T('>')]
     return dict(ast=ast, ns=ns)
@@ -321,9 +336,11 @@ def run_shard(shard):
                                           sx], bad[1])
     elif kind == 'single':
         for kd in KINDS:
-            for form in ('unless', 'call'):
+            for form in ('unless', 'unless-else', 'call'):
                 if form == 'call' and kd == 'U':
                     continue
+                if form == 'unless-else' and kd in ('ET', 'EF'):
+                    continue     # the old else block takes a name only
                 for sx in ('dtml', 'ssi', 'epfs'):
                     c = chain_case([kd], False, 0, form)
                     bad = run(c['ast'], c['ns'], sx)
